@@ -97,4 +97,19 @@ PROPS = {
         'rule': "(1) load: values built from pieces {literal, $NAME, ${NAME}, $$} placed in command, working_dir, process and global environment values and an exec probe command; the process environment and a .env file define random subsets of four VRF_ names; dotenv on/off, disable_env_expansion on/off; oracle = reference expander on the parsed values. (2) launch: the same key defined at inherited / env_cmds (real shell command) / global / per-process level in random subsets, replicas {1,2,3,10}; oracle on the environment slice and directory handed to the commander with exec semantics (last assignment wins), PC_PROC_NAME / PC_REPLICA_NUM per replica. Non-trivial = `$$` adjacent to a reference or another `$$`, or a key defined on >= 2 levels; distinct = distinct case JSON",
         'assumptions': ["only the documented reference forms with names [A-Z_][A-Z0-9_]* are generated", "a key defined both by env_cmds and in the global environment is not judged (the statement does not order them)"],
     },
+    'C11': {
+        'tests': [tst('lifecycle', 'TestC11', 150, 3000)],
+        'rule': "one process with 1-3 launches (restart always), each launch writes 0-150 lines on stdout/stderr with payload lengths from {0,1,8,80,4095,4096,4097,65537,262144}, optionally without the final newline and optionally as a burst immediately before the exit; log_length in {10,100,1000}; logger none / per-process file / unified file x flush_each_line x no_metadata x disable_json, optionally a second process writing into the unified file. Oracle: per stream the in-memory log is the most recent written lines in order, each once (at least log_length of them), and after Run() returned the file holds every line exactly once in per-stream order. Non-trivial = >= 2 lines with a missing final newline, a line >= 4096 bytes or a burst before exit, or a restart; distinct = distinct case JSON",
+        'assumptions': LIFE_ASSUME[:2] + ["lines are handed to the command's pipes by the harness; real shells are exercised by the osproc cross-check of C06"],
+    },
+    'C13': {
+        'tests': [tst('lifecycle', 'TestC13', 60, 1200)],
+        'rule': "project: templated process web (command, description and exec readiness probe use PC_REPLICA_NUM; initial replicas 1-3), process db (replicas 1-2), a plain process and a dependent; 1-6 scale requests addressed by a current replica name, the bare name, an unknown or a stale name, n from {-1,0,1,2,3,4,9,10,11} and, in 15% of the cases, {9,10,11,99,100,101}. Oracle: differential against a fresh loader.Load with replicas: n (names, per-replica config, probe), ground truth per replica (survivors undisturbed, removed terminated, added launched once with their own number), failing requests change nothing. Non-trivial = a name-width change or a scale-down; distinct = distinct case JSON",
+        'assumptions': LIFE_ASSUME[:2] + ["a request addressed by the bare name of an already replicated process may fail or succeed (the statement does not say which names are known); if it fails it must change nothing"],
+    },
+    'C14': {
+        'tests': [tst('lifecycle', 'TestC14', 200, 4000)],
+        'rule': "P = 2-6 processes over command / entrypoint (executable + arguments), environment, working dir, restart policy, readiness probe, dependencies; 1-3 successive updates P' obtained by keeping, removing or mutating each process (1-2 mutations out of: command, executable, argument, environment change/add/remove, working dir, probe, policy, back-off, dependency, description, namespace, shutdown signal) and adding new processes; in 35% of the cases the last configuration is applied twice (idempotence). Oracle: reference classification by the statement's launch-relevant field list, status map, configured set, instance identity (kept / terminated / launched with the new executable, arguments, environment and directory). Non-trivial = some process changed while another one stayed unchanged and alive; distinct = distinct case JSON",
+        'assumptions': LIFE_ASSUME[:2] + ["changes confined to description, namespace or shutdown signal may or may not be reported as an update (the statement does not list them as launch-relevant)"],
+    },
 }
